@@ -104,7 +104,7 @@ func (gw *eventBasedGateway) NextAction(ctx context.Context, flow Flow) chan IAc
 		go gw.run(ctx, sender)
 	})
 
-	response := make(chan IAction)
+	response := make(chan IAction, 1)
 	gw.mch <- nextActionMessage{response: response, flow: flow}
 	return response
 }
